@@ -226,6 +226,42 @@ def adaptors : List AdaptorCall := [
   { method := "valueToString", callee := "toString_", order := [0], wrap := "SimpleString" },
   { method := "copy", callee := "copier_", order := [0, 1], wrap := "" }]
 
+/-! ## argument order -/
+
+/-- (parameter passed, C++ type it is passed as) for every argument of the forwarder's C++ call -/
+def passedArgs (as : List ArgExpr) : List (String × String) :=
+  as.filterMap (fun a => match a with
+    | .param n t => some (n, t)
+    | .neZero n => some (n, "bool")
+    | .fnCast n => some (n, "fptr")
+    | _ => none)
+
+def callArgs : Body → List (String × String)
+  | .chain _ _ _ as _ => passedArgs as
+  | .void_ _ _ as => passedArgs as
+  | .ret _ _ as _ => passedArgs as
+  | .install _ _ _ _ as => passedArgs as
+  | _ => []
+
+/-- the C++ call has two arguments of one type: the compiler cannot notice if they are exchanged -/
+def hasRepeatedType (l : List (String × String)) : Bool :=
+  l.any (fun p => decide ((l.filter (fun q => q.2 == p.2)).length ≥ 2))
+
+/-- for every forwarder whose C++ call takes two arguments of the same type: the order in which it must pass its
+    parameters (from the parameter names of MockSupport_c.h and the C++ signatures: (name, value, tolerance),
+    (typeName, name, value), setDataObject(name, type, value), ...) -/
+def argumentOrder : List (String × List String) := [
+  ("withDoubleParametersAndTolerance_c", ["name", "value", "tolerance"]),
+  ("withStringParameters_c", ["name", "value"]),
+  ("withParameterOfType_c", ["type", "name", "value"]),
+  ("withOutputParameterOfTypeReturning_c", ["type", "name", "value"]),
+  ("withActualStringParameters_c", ["name", "value"]),
+  ("withActualParameterOfType_c", ["type", "name", "value"]),
+  ("withActualOutputParameterOfType_c", ["type", "name", "value"]),
+  ("setStringData_c", ["name", "value"]),
+  ("setDataObject_c", ["name", "type", "value"]),
+  ("setDataConstObject_c", ["name", "type", "value"])]
+
 /-! ## the C++ program a C scenario stands for -/
 
 def kindOfStore : Ptr → XKind
@@ -445,5 +481,87 @@ def wf (tbl : Ptr) (fw : Fwd) : Bool :=
        | none => false)
     | _, _ => false
   | _ => true
+
+/-! ## a syntactic sufficient condition for `RunOk` -/
+
+/-- what is known about the pointers from the scenario text alone: the scope selected last, and the scope on which
+    the static actual call was made (while that call is known to be still the scope's last one) -/
+structure Sym where
+  cur : Option String
+  act : Option String
+deriving DecidableEq, Repr, Inhabited
+
+def sigActualCall : String := "actualCall(string)"
+def sigClear : String := "clear()"
+def sigDisable : String := "disable()"
+def sigIgnoreOtherCalls : String := "ignoreOtherCalls()"
+
+/-- effect of one C++ statement on that knowledge; `none` = the statement leaves the class (it switches checking off,
+    so the next actual call need not become the scope's last call) -/
+def symStepX (sy : Sym) : XStmt → Option Sym
+  | .mock s => some { sy with cur := some s }
+  | .call .sup sig _ kind =>
+    if sig = sigDisable ∨ sig = sigIgnoreOtherCalls then none
+    else if sig = sigActualCall then (if kind = .toAct then some { sy with act := sy.cur } else none)
+    else if kind = .toAct then none
+    else if sig = sigClear then some { sy with act := none }
+    else some sy
+  | .call .exp _ _ kind => if kind = .toAct then none else some sy
+  | .call .act _ _ _ => some sy
+  | .orDefault .exp _ _ _ => none
+  | .orDefault .act _ _ _ => some sy
+  | .orDefault .sup g _ _ =>
+    if signature g [] = sigActualCall ∨ signature g [] = sigClear ∨ signature g [] = sigDisable ∨
+       signature g [] = sigIgnoreOtherCalls then none else some sy
+  | .invalid _ => some sy
+
+/-- the statement is a member of its table and, if it reaches across, it is asked while the scope selected last is
+    the scope of the last actual call -/
+def stmtOk (sy : Sym) : CStmt → Bool
+  | .call tbl field _ =>
+    (fieldsOf tbl).contains field &&
+    (match Req.forwarderOf tbl field with
+     | some fw => !needsAlign tbl fw || (sy.act.isSome && sy.act == sy.cur)
+     | none => true)
+  | _ => true
+
+def alignedFrom (sy : Sym) : List CStmt → Bool
+  | [] => true
+  | s :: rest =>
+    stmtOk sy s &&
+    (match symStepX sy (Req.toCpp s) with
+     | some sy' => alignedFrom sy' rest
+     | none => false)
+
+/-- **The aligned class, decidable from the scenario text**: every table call is a member of its table; every
+    return-value getter of the support table, and `hasReturnValue` / `...OrDefault` of the actual-call table, is asked
+    while the scope selected last is the one the last `actualCall` was made on, with no `clear` in between; checking is
+    never switched off (`disable`, `ignoreOtherCalls`). -/
+def Aligned (ss : List CStmt) : Bool := alignedFrom ⟨none, none⟩ ss
+
+/-- What the syntactic condition relies on about the C++ side (all true of MockSupport.cpp / MockActualCall.cpp; proved
+    for the C08 model in `Props/C19x.lean`): while checking is on (`plain`), `actualCall` creates the scope's last call
+    and hands it out; nothing but `actualCall` and `clear` (and a failure, which ends the test) changes which call is a
+    scope's last one; the `with...` members of a call return the call itself. -/
+structure ScopeLaws (K : CppMock) where
+  plain : K.M → Prop
+  plain_mock : ∀ m s, plain m → plain (K.mock m s)
+  plain_sup : ∀ m s sig args, sig ≠ sigDisable → sig ≠ sigIgnoreOtherCalls → plain m → plain (K.sup m s sig args).1
+  plain_ec : ∀ m e sig args, plain m → plain (K.ec m e sig args).1
+  plain_ac : ∀ m a sig args, plain m → plain (K.ac m a sig args).1
+  last_mock : ∀ m s s0, K.last (K.mock m s) s0 = K.last m s0
+  actual_sets_last : ∀ m s args, plain m → K.stopped (K.sup m s sigActualCall args).1 = false →
+    ∃ a, (K.sup m s sigActualCall args).2 = .ac a ∧ K.last (K.sup m s sigActualCall args).1 s = some a
+  last_sup : ∀ m s sig args s0, sig ≠ sigActualCall → sig ≠ sigClear → K.stopped (K.sup m s sig args).1 = false →
+    K.last (K.sup m s sig args).1 s0 = K.last m s0
+  last_ec : ∀ m e sig args s0, K.stopped (K.ec m e sig args).1 = false → K.last (K.ec m e sig args).1 s0 = K.last m s0
+  last_ac : ∀ m a sig args s0, K.stopped (K.ac m a sig args).1 = false → K.last (K.ac m a sig args).1 s0 = K.last m s0
+  ac_self : ∀ m a sig args a', (K.ac m a sig args).2 = .ac a' → a' = a
+
+/-- the knowledge `sy` is true of the pointers `st` -/
+structure SymInv (K : CppMock) (sl : ScopeLaws K) (sy : Sym) (st : Core K) : Prop where
+  cur : sy.cur = st.cur
+  plain : sl.plain st.m
+  act : ∀ s, sy.act = some s → ∃ a, st.a = some a ∧ K.last st.m s = some a
 
 end MockC
